@@ -79,6 +79,10 @@ func (s *signer) Unmarshal(bytes []byte) error {
 			chain.Address(pbSigner.Wallet.SigningGroupOperators[i])
 	}
 
+	if err := validateMemberIndex(pbSigner.SigningGroupMemberIndex); err != nil {
+		return err
+	}
+
 	privateKeyShare := &tecdsa.PrivateKeyShare{}
 	if err := privateKeyShare.Unmarshal(pbSigner.PrivateKeyShare); err != nil {
 		return fmt.Errorf("cannot unmarshal private key share: [%w]", err)
